@@ -145,7 +145,10 @@ def gen_input(rng, P: Pools, name, shell):
         schema = {"type": {"type": "array", "items": inner}}
         if bound:
             schema["inputBinding"] = gen_binding(rng, P, "x", shell, composite=True, allow_valuefrom=False)
-        return schema, [[P.item_str() for _ in range(rng.randint(0, 2))] for _ in range(rng.randint(0, 2))]
+        v = [[P.item_str() for _ in range(rng.randint(0, 2))] for _ in range(rng.randint(0, 2))]
+        if v and not any(v) and not W:
+            v[0] = [P.item_str()]  # R: see mechanism C30/array-prefix-dropped-when-no-item-emits
+        return schema, v
     schema = {"type": t}
     is_array = t.endswith("[]")
     item_binding = False
@@ -321,7 +324,13 @@ def gen_trigger(rng, probe_path: str, which: str | None = None) -> dict:
             b["position"] = rng.choice([0, 1])
         if rng.random() < 0.3:
             b["prefix"] = rng.choice(PREFIXES)
-        if rng.random() < 0.3:
+        r = rng.random()
+        if r < 0.15:
+            # nested arrays, all empty: only the outer prefix is left
+            b["prefix"] = rng.choice(PREFIXES)
+            inputs["a"] = {"type": {"type": "array", "items": {"type": "array", "items": "string"}}, "inputBinding": b}
+            job["a"] = [[]] * rng.randint(1, 2)
+        elif r < 0.35:
             # items with a binding of their own, none of them true: only the outer prefix is left
             b["prefix"] = rng.choice(PREFIXES)
             inputs["a"] = {"type": {"type": "array", "items": "boolean", "inputBinding": {"prefix": rng.choice(PREFIXES)}}, "inputBinding": b}
